@@ -60,8 +60,10 @@ where
 
             let is_overall_termination = config.termination.is_termination(&mut heuristic_ctx);
             let is_initial_quota_reached = config.termination.estimate(&heuristic_ctx) > config.initial.quota;
+            // NOTE build at least one solution: the stop tests apply only once the population holds one
+            let has_solution = heuristic_ctx.ranked().next().is_some();
 
-            if is_initial_quota_reached || is_overall_termination {
+            if has_solution && (is_initial_quota_reached || is_overall_termination) {
                 (logger)(
                     format!(
                         "stop building initial solutions due to initial quota reached ({is_initial_quota_reached})\
